@@ -19,6 +19,7 @@ F_INDEX = 'F18'
 F_INITIAL = 'F21'
 F_REBUILD = 'F1'
 F_RETYPE = 'F60'
+F_RENAME_TABLE = 'F66'
 
 
 # ---------------------------------------------------------------------------
@@ -319,7 +320,13 @@ def db_case(ctx, spec, seq, seed, witnesses, rewritten, explained=True):
         ctx.count('db:%s' % mode)
         if 'error' in B:
             r = dict(rep, mode=mode, observed=B['error'])
-            if explained and (name_reuse(seq) or touches_renamed_model(seq)):
+            if mode == 'evolver' and any(m['t'] == 'RenameModel' and m.get('db_table') and
+                                         ('already another table or index with this name: %s' % m['db_table']) in B['error']
+                                         for m in seq):
+                # the Evolver takes the renamed model (whose new table does not exist yet) for a NEW model and
+                # creates its table before the RenameModel renames the old table onto it
+                witnesses.setdefault(F_RENAME_TABLE + ':db', r)
+            elif explained and (name_reuse(seq) or touches_renamed_model(seq)):
                 witnesses.setdefault(F_REUSE + ':db', r)
             elif explained and retype_merge(seq):
                 witnesses.setdefault(F_RETYPE + ':db', r)
@@ -465,6 +472,7 @@ WHAT = {
     F_INDEX: 'a db_index/unique change or field rename merged with other changes of the same table leaves different indexes',
     F_INITIAL: 'rolling up mutations that carry initial values changes or drops the data rewrite of the intermediate step',
     F_RETYPE: 'a type-changing ChangeField merged with earlier changes of the same field keeps attributes that it drops when applied on its own',
+    F_RENAME_TABLE: 'through the Evolver a RenameModel that also moves the table fails: the renamed model is taken for a new one and its table is created first',
     F_REBUILD: 'a table rebuild after ChangeMeta drops the multi-column index in one of the two runs (rebuild loses table-level indexes)',
 }
 
